@@ -1,14 +1,14 @@
 SPECIFICATION Spec
 CONSTANTS
   Recorded = FALSE
-  Fault = "none"
+  Fault = "edrv_no_regen_clip"
   Policies <- Both
   Ratings <- R123
   ConvStarts <- CS2
-  BelStarts <- BSmin
+  BelStarts <- BS3
   MinUnits = 1
   MaxUnits = 2
-  MaxSteps = 3
+  MaxSteps = 1
   WarmClasses <- WarmFew
   Classes <- AllClasses
   ThinMod = 1000000
@@ -20,5 +20,4 @@ INVARIANT Zero
 INVARIANT NoOpposite
 INVARIANT Regen
 INVARIANT BatteryFirst
-INVARIANT EmitThin
 CHECK_DEADLOCK FALSE
